@@ -36,6 +36,9 @@ type Rec struct {
 	Reads  int
 	NoObs  bool // suppress the automatic observation (the caller observes)
 	Dead   bool // a call into the vault never returned: nothing more is done on this vault
+	// KeepOrder: compare actions read through the cosmos fake in the order Read returned them. Only for
+	// patch-free cases: before any patch the fake hands items out in insertion order (= emission order).
+	KeepOrder bool
 }
 
 func NewRec(ctx context.Context, b *Backend, set *Set) *Rec {
@@ -142,7 +145,7 @@ func (r *Rec) observe(ok string) (string, map[string]any) {
 			term := ""
 			r.guard("abstraction of a read plan", func() {
 				NormPlan(got)
-				if r.B.Kind == 1 {
+				if r.B.Kind == 1 && !r.KeepOrder {
 					OrderActionsLike(got, r.Created[id])
 				}
 				term = r.Cx.Plan(got)
